@@ -100,7 +100,7 @@ class PintParser(StringParser):
 
     @classmethod
     def parse(cls, tcls, v):
-        if not v:
+        if isinstance(v, str) and not v:
             msg = f"Got empty string, expected {tcls.__name__}."
             raise ValueError(msg)
         try:
